@@ -8,6 +8,9 @@ import (
 	"gverif/core"
 	"gverif/engine/args"
 	"gverif/engine/config"
+	"gverif/engine/constx"
+	"gverif/engine/decode"
+	"gverif/engine/dspx"
 	"gverif/engine/goproto"
 	"gverif/engine/graphinv"
 	"gverif/engine/loopidx"
@@ -338,6 +341,71 @@ func init() {
 	}
 }
 
+func init() {
+	properties["C16"] = &property{
+		explanation: "Decides the 'decoders are total ... never an internally inconsistent object' mechanisms of C16 for the binary decoders of mat, stat/card and mathext/prng and for graph6/digraph6: DECODE.mul — a product of two decoded integers is preceded on every path by a division-based overflow guard; DECODE.range — a decoded integer used as a shift count or allocation size is range-checked in an error-returning branch on every path before that use; DECODE.len — a variable-length field decoded into the receiver is length-checked before success is returned; DECODE.selfcmp — no compatibility comparison has two sides denoting the same expression ('merges only with compatible sketches'); DECODE.gate — every exported graph6/digraph6 accessor passes IsValid before touching raw bytes (helpers that index without a length test are found by a must-pass analysis, not listed); TWIN.generated — hll64.go is the image of hll32.go. Found and repaired: rows*cols overflow in Dense.UnmarshalBinary[From], unvalidated p/register in HyperLogLog.UnmarshalBinary, the self-comparison in Union. Does NOT decide round-trip equality, the gocc/Ragel generated DOT and N-Quads parsers, or RDF canonicalisation.",
+		assumptions: commonAssumptions,
+		run: func(tier string, res *core.Result) {
+			d := decode.Run(def, "./mat", "./stat/card", "./mathext/prng", "./graph/encoding/graph6", "./graph/encoding/digraph6")
+			d.Floor("decoder_methods", 10)
+			d.Floor("decoded_cells", 30)
+			d.Floor("decoded_products", 2)
+			d.Floor("decoded_shift_counts", 2)
+			d.Floor("decoded_variable_length_fields", 2)
+			d.Floor("graph6_exported_methods", 14)
+			d.Floor("graph6_raw_accesses", 4)
+			res.Merge(d)
+			t := twin.Run(twin.Which{Generated: true, Prefixes: []string{"stat/card/"}})
+			t.Floor("generated_file_pairs", 1)
+			t.Floor("twin_declaration_pairs", 10)
+			res.Merge(t)
+			if tier == "thorough" {
+				res.Merge(decode.Run(core.Config{Tags: "safe"}, "./mat", "./stat/card"))
+				res.Merge(decode.Run(core.Config{GOARCH: "386"}, "./mat", "./stat/card", "./mathext/prng", "./graph/encoding/graph6", "./graph/encoding/digraph6"))
+			}
+		},
+	}
+	properties["C17"] = &property{
+		explanation: "Decides the structural clauses of C17: RESET.fields — in Reset(n) of FFT, CmplxFFT, DCT, DST and QuarterWaveFFT every struct field is reassigned or handed to the fftpack initialiser on every path and workspaces are resliced to lengths depending on n alone ('the same answer regardless of what lengths it was previously Reset with'); WINDOW.pointwise — every window function of dsp/window stores to seq[J] a value that reads no element other than seq[J]; WINDOW.sibling — the weight expression of each real window and of its Complex sibling are identical after inlining locals and constants (14 pairs); TWIN.bounds — the bounds-checked and unchecked fftpack array accessors have identical bodies once guards are set aside. Found and repaired: Tukey.TransformComplex mirrored the left taper into the right. Does NOT decide the butterflies, twiddle factors, scaling, dst/src aliasing or closed-form window values (value-level).",
+		assumptions: commonAssumptions,
+		run: func(tier string, res *core.Result) {
+			r := dspx.RunReset(def)
+			r.Floor("reset_methods", 5)
+			r.Floor("fields_checked", 10)
+			res.Merge(r)
+			w := dspx.RunWindow(def)
+			w.Floor("window_functions", 28)
+			w.Floor("window_element_stores", 28)
+			w.Floor("window_sibling_pairs", 13)
+			res.Merge(w)
+			t := twin.Run(twin.Which{Bounds: true, BoundsFamilies: []string{"fftpack-array"}})
+			t.Floor("bounds_twin_function_pairs", 10)
+			res.Merge(t)
+			cfgs := []core.Config{{}, {Tags: "bounds"}}
+			if tier == "thorough" {
+				cfgs = append(cfgs, core.Config{Tags: "bounds", GOARCH: "386"}, core.Config{GOARCH: "arm64"})
+			}
+			res.Merge(config.Run(cfgs, []string{"./dsp/..."}))
+		},
+	}
+	properties["C18"] = &property{
+		explanation: "Decides the table-level clauses of C18 by exact evaluation of literals in the source (no gonum code runs): CONST.stencil — each of the six predefined finite-difference formulas satisfies the moment conditions sum c_i*loc_i^k = k!*[k==Derivative] for all k below its point count, in exact rationals ('each formula differentiates polynomials up to its order exactly'); CONST.legendre — for every tabulated n < 101: rows have exactly the shape tabulated() indexes, each node is a root of P_n to 1e-19 (320-bit arithmetic), each weight equals 2/((1-x^2)P_n'(x)^2) to 1e-19, is positive, and the weights sum to 2; CONST.hermite — 200 rows with n entries, symmetric increasing nodes, positive weights summing to sqrt(pi); GOPROTO.sibling on diff/fd (OriginKnown honoured by serial and concurrent paths alike). Found and repaired: the n=26 Legendre weight row. Does NOT decide the Bogaert asymptotic branch (n > 100), Simpson/Romberg weights, interpolants or dual-number algebra.",
+		assumptions: commonAssumptions,
+		run: func(tier string, res *core.Result) {
+			c := constx.Run(def)
+			c.Floor("stencil_formulas", 6)
+			c.Floor("stencil_moment_conditions", 14)
+			c.Floor("legendre_rows", 99)
+			c.Floor("legendre_nodes_checked", 2500)
+			c.Floor("hermite_rows", 200)
+			res.Merge(c)
+			g := goproto.Run(def, core.Pkgs("./diff/fd", "./integrate/quad"))
+			g.Floor("serial_concurrent_sibling_pairs", 4)
+			res.Merge(g)
+		},
+	}
+}
+
 func dump(argv []string) {
 	if len(argv) == 0 {
 		return
@@ -373,6 +441,13 @@ func dump(argv []string) {
 		res = graphinv.Run(def)
 		res.Merge(graphinv.RunIterators(def))
 		res.Merge(graphinv.RunIterators(core.Config{Tags: "safe"}))
+	case "decode":
+		res = decode.Run(def, argv[1:]...)
+	case "const":
+		res = constx.Run(def)
+	case "dspx":
+		res = dspx.RunReset(def)
+		res.Merge(dspx.RunWindow(def))
 	case "twin":
 		res = twin.Run(twin.Which{Generated: true, Bounds: true, ReuseAs: true, R3: true, Siblings: []string{"graph/iterator"}})
 	case "args":
